@@ -156,6 +156,8 @@ class ExecutionContext:
                         second = [second]
                     combined = first + second
                     result = [combined[i] for i in indices]
+                    if instruction.Type.IsScalar():
+                        result = result[0]
                     localScope[ref] = result
                 case LinearIR.OpCode.STORE_ARRAY:
                     ref = instruction.Reference
